@@ -173,3 +173,128 @@ func C02_Many() {
 	r.assertAgree("many")
 	verif.Reach("compared")
 }
+
+// C02_Siblings: two sibling blocks (and what follows them) built from the
+// statement templates. A slot freed at the end of the first block is taken
+// again by the second one: every identifier of the second block must resolve
+// by the scoping rules alone, whatever the first block declared or read in
+// the same slots.
+func C02_Siblings() {
+	g := &c02Gen{values: map[string]any{}}
+	if verif.Choice("pre", 2) == 1 {
+		g.stmt("var a = K")
+	}
+	first := [][2]int{{0, 4}, {0, 2}, {6, 4}, {1, 4}, {0, 7}, {2, 5}}
+	if verif.Tier() == 1 {
+		g.src += "def t {\n"
+		g.stmt(c02In[verif.Choice("s1", len(c02In))])
+		g.stmt(c02In[verif.Choice("s2", len(c02In))])
+	} else {
+		f := first[verif.Choice("first", len(first))]
+		g.src += "def t {\n"
+		g.stmt(c02In[f[0]])
+		g.stmt(c02In[f[1]])
+	}
+	g.src += "}\n"
+	nested := verif.Choice("nested", 2) == 1
+	if nested {
+		g.src += "def w {\n"
+	}
+	g.src += "def u {\n"
+	g.stmt(c02In[verif.Choice("s3", len(c02In))])
+	if verif.Tier() == 1 {
+		g.stmt(c02In[verif.Choice("s4", len(c02In))])
+	} else {
+		g.stmt(c02In[[]int{4, 5, 8}[verif.Choice("s4", 3)]])
+	}
+	g.src += "}\n"
+	if nested {
+		g.src += "}\n"
+	}
+	r := runBoth(g.src, g.values)
+	verif.Observe("rejected", r.ParseErr != nil)
+	verif.Observe("out", r.Real.Out)
+	verif.Observe("err", errClass(r.Real.Err))
+	r.assertAgree("siblings")
+	if r.ParseErr == nil {
+		verif.Reach("accepted")
+	} else {
+		verif.Reach("rejected")
+	}
+}
+
+// C02_FieldChain: a field x may be set, at each of three nesting levels, to a
+// symbolic int, nil, false, 0, "" or not at all; the innermost block (and the
+// middle one) reads it. The nearest enclosing block that HAS the field wins,
+// whatever value it holds, and no holder at all is a runtime error.
+func C02_FieldChain() {
+	kinds := []string{"", "x = 1001\n", "x = nil\n", "x = false\n", "x = 0\n", "x = \"\"\n", "var u\nx = u\n"}
+	src := "def a {\n" + kinds[verif.Choice("l1", len(kinds))]
+	src += "def b {\n" + kinds[verif.Choice("l2", len(kinds))]
+	src += "def c {\n"
+	l3 := verif.Choice("l3", 3)
+	src += []string{"", "x = nil\n", "x = 1002\n"}[l3]
+	src += "y = x\nprint x\n}\nz = x\n}\n"
+	if verif.Choice("after", 2) == 1 {
+		src += "w = x\n"
+	}
+	src += "}\n"
+	values := map[string]any{}
+	for _, text := range []string{"1001", "1002"} {
+		if containsStr(src, text) {
+			values[text] = verif.Int("k" + text)
+		}
+	}
+	r := runBoth(src, values)
+	verif.Observe("out", r.Real.Out)
+	verif.Observe("err", errClass(r.Real.Err))
+	r.assertAgree("fieldchain")
+	verif.Reach("compared")
+}
+
+// C02_SlotSweep: CONCRETE INSTANCES - k variables (and k constants) precede a
+// block whose scope ends right after a statement whose last operand is slot
+// k-1 / constant k, for every k in the range: the state left behind by a scope
+// must not depend on the numeric value of a slot or constant index.
+func C02_SlotSweep() {
+	max := 72
+	if verif.Tier() == 1 {
+		max = 300
+	}
+	k := verif.Choice("k", max)
+	last := "v" + itoa(k-1)
+	src := ""
+	for i := 0; i < k; i++ {
+		src += "var v" + itoa(i) + " = " + itoa(5000+i) + "\n"
+	}
+	if k == 0 {
+		last = "77"
+	}
+	stmt := []string{
+		"var z = " + last,
+		"var z = 99999",
+		"print " + last,
+		"f = " + last,
+		"var z = " + last + " + 1",
+		"var z = not " + last,
+		"var z = " + last + " and 99999",
+		"var z = 99999 or " + last,
+		"var z = -" + last,
+	}
+	s := stmt[verif.Choice("stmt", len(stmt))]
+	nlocals := verif.Choice("locals", 3)
+	src += "def t {\n"
+	for i := 0; i < nlocals; i++ {
+		src += "var y" + itoa(i) + " = " + itoa(i+1) + "\n"
+	}
+	src += s + "\n}\nprint 42\n"
+	if k > 0 {
+		src += "print v0 + " + last + "\n"
+	}
+	src += "def u {\n var q = 3\n g = q\n}\n"
+	r := runBoth(src, nil)
+	verif.Observe("out", r.Real.Out)
+	verif.Observe("err", errClass(r.Real.Err))
+	r.assertAgree("slotsweep")
+	verif.Reach("compared")
+}
